@@ -56,7 +56,7 @@ REQUIRE = {"requests": 400, "get_requests": 150, "move_requests": 150, "pending_
            "computed_finals": 120, "final_success": 25, "final_all_failed": 8, "final_warning": 40,
            "failed_list_checked": 50, "cls_invalid-object": 15, "cls_unsendable-instance": 15,
            "cls_more-than-announced": 15, "cls_fewer-than-announced": 25, "cls_subop-failure": 30,
-           "cls_subop-warning": 25, "n_ge_3": 60}
+           "cls_subop-warning": 25, "n_ge_3": 60, "overlapping_retrieval_cases": 5, "overlapping_finals_checked": 8}
 MAX_INCONCLUSIVE_FRAC = 0.03
 
 
@@ -65,7 +65,109 @@ def setup_worker():
 
 
 def gen_cases(tier, seed):
-    return H.gen_cases(tier, seed, "C22", focus="retrieve")
+    cases = H.gen_cases(tier, seed, "C22", focus="retrieve")
+    for i in range(6 if tier == "quick" else 80):
+        cases.append({"overlap": True, "i": i, "seed": seed, "svc_kind": ("get", "move")[i % 2]})
+    return cases
+
+
+def _uid_list(v):
+    if v is None or v == "":
+        return []
+    if isinstance(v, str):
+        return [str(v)]
+    return sorted(str(x) for x in v)
+
+
+def run_overlapping_retrievals(case):
+    """Two retrievals on two associations of ONE SCP overlap in time (each handler waits, after its first result, until the other
+    one has produced its first result too); every requestor rejects some of the instances sent to it.  Each final response must list
+    exactly the instances whose sub-operation failed on ITS association, and its counters must add up to its own N."""
+    import threading
+    from pydicom.dataset import Dataset, FileMetaDataset
+    from pydicom.uid import ImplicitVRLittleEndian
+    from pynetdicom import build_role, evt
+    from vlib import harness, taps
+    from vlib.common import rng_for
+    taps.reset()
+    rng = rng_for(case["seed"], PID, "overlap", case["i"])
+    CT = "1.2.840.10008.5.1.4.1.1.2"
+    GETU = "1.2.840.10008.5.1.4.1.2.1.3"
+    n = {"A": rng.choice([2, 3]), "B": rng.choice([2, 3, 4])}
+    fail = {k: sorted(rng.sample(range(n[k]), rng.randint(1, n[k]))) for k in n}
+    uid = lambda k, j: "1.2.826.0.1.3680043.9.3811.22.%d.%d.%d" % (case["i"] + 1, 1 if k == "A" else 2, j + 1)
+    first_done = {"A": threading.Event(), "B": threading.Event()}
+    who = {}
+
+    def mk(k, j):
+        ds = Dataset()
+        ds.SOPClassUID = CT
+        ds.SOPInstanceUID = uid(k, j)
+        ds.PatientID = k
+        ds.file_meta = FileMetaDataset()
+        ds.file_meta.TransferSyntaxUID = ImplicitVRLittleEndian
+        return ds
+
+    def on_get(event):
+        k = "A" if str(event.identifier.PatientID) == "A" else "B"
+        yield n[k]
+        for j in range(n[k]):
+            yield 0xFF00, mk(k, j)
+            if j == 0:
+                first_done[k].set()
+                first_done["B" if k == "A" else "A"].wait(3.0)       # both retrievals are now between sub-operations
+    scp = harness.make_ae("C22-SCP", timeouts=(4.0, 4.0, 6.0, 4.0), supported=[GETU, dict(abstract_syntax=CT, scu_role=True, scp_role=True)])
+    server, port = harness.start_server(scp, [(evt.EVT_C_GET, on_get)])
+    finals, errors = {}, []
+
+    def requestor(k):
+        try:
+            ae = harness.make_ae("C22-SCU-" + k, timeouts=(4.0, 4.0, 6.0, 4.0), requested=[GETU, CT])
+
+            def on_store(event):
+                u = str(event.request.AffectedSOPInstanceUID)
+                j = int(u.rsplit(".", 1)[1]) - 1
+                return 0xA700 if j in fail[k] else 0x0000
+            assoc = ae.associate("127.0.0.1", port, ext_neg=[build_role(CT, scu_role=True, scp_role=True)], evt_handlers=[(evt.EVT_C_STORE, on_store)])
+            if not assoc.is_established:
+                errors.append("%s not established" % k)
+                return
+            q = Dataset(); q.QueryRetrieveLevel = "PATIENT"; q.PatientID = k
+            for st, ident in assoc.send_c_get(q, GETU):
+                if st and st.Status not in (0xFF00, 0xFF01):
+                    finals[k] = {"status": st.Status, "failed": getattr(st, "NumberOfFailedSuboperations", None),
+                                 "completed": getattr(st, "NumberOfCompletedSuboperations", None),
+                                 "list": _uid_list(getattr(ident, "FailedSOPInstanceUIDList", None)) if ident is not None else None}
+            if assoc.is_established:
+                assoc.release()
+            harness.stop_ae(ae, 2.0)
+        except Exception as exc:
+            errors.append("%s: %r" % (k, exc))
+    ths = [threading.Thread(target=requestor, args=(k,), daemon=True) for k in ("A", "B")]
+    for t in ths:
+        t.start()
+    for t in ths:
+        t.join(20.0)
+    harness.stop_ae(scp, 2.0)
+    viol = []
+    counters = {"overlapping_retrieval_cases": 1}
+    for k in ("A", "B"):
+        f = finals.get(k)
+        want = sorted(uid(k, j) for j in fail[k])
+        if f is None:
+            continue
+        counters["overlapping_finals_checked"] = counters.get("overlapping_finals_checked", 0) + 1
+        if f["list"] != want:
+            viol.append({"key": "C22|failed-list|overlapping-retrievals|other-associations-instances-or-missing-own",
+                         "detail": "retrieval %s (N=%d, its requestor failed %r): final response lists %r, expected %r; the other retrieval ran at the "
+                                   "same time on another association" % (k, n[k], fail[k], f["list"], want)})
+        if f["failed"] != len(want) or (f["completed"] or 0) + (f["failed"] or 0) != n[k]:
+            viol.append({"key": "C22|final-counters|overlapping-retrievals", "detail": "retrieval %s: final counters %r, N=%d, %d failed" % (k, f, n[k], len(want))})
+    inc = None
+    if len(finals) < 2:
+        inc = "not both retrievals produced a final response: %r %r" % (finals, errors[:2])
+    return {"key": sha(["overlap", case["i"], n, fail]), "nontrivial": len(finals) == 2, "sample": {"kind": "overlapping-retrievals", "n": n, "fail": fail, "finals": finals},
+            "violations": viol, "counters": counters, "inconclusive": inc}
 
 
 def _hx(v):
@@ -234,6 +336,8 @@ def _brief(case):
 
 
 def run_case(case):
+    if case.get("overlap"):
+        return run_overlapping_retrievals(case)
     obs = H.run_scenario(case)
     mdl = H.model(case)
     dimse = H.SERVICES[case["svc"]]["dimse"]
